@@ -43,7 +43,7 @@ def gen_env(rng, arrays=True, strings=True, force_str_array=False):
                 return rng.choice([1.5, -2.25, 0.125, 1024.0, 2.0 ** 34, 2.0 ** -7, 0.0, -1.0])   # exactly representable in single precision; others: dedicated case below
             if kw == "bool":
                 return rng.choice([True, False])
-            return rng.choice(["alpha", "Configuration_test", "x", "with-dash", "a_b-c"]) if shape else rng.choice(["alpha", "Configuration test", "x", "with space", "a_b-c", 'say "hi"', 'quote"inside'])
+            return rng.choice(["alpha", "Configuration_test", "x", "with-dash", "a_b-c"]) if shape else rng.choice(["alpha", "Configuration test", "x", "with space", "a_b-c", 'say "hi"', 'quote"inside', "Ångström café", "µm"])
         if kw == "str" and force_str_array:
             shape, n = (3,), 3
         flat = [one() for _ in range(n)]
